@@ -3,10 +3,9 @@
 //   copy ctor, move ctor, dtor, copy=, move=, grow_by, operator[], size, capacity, numBuffers,
 //   getBuffer, getBufferSize, swap, allocateBuffer, constructObjects}, detail::log2i,
 //   detail::alignedMalloc/alignedFree, std::vector<T**>::push_back (deleteLater_).
-// Symbolic: minBuffSize and initialSize of two arenas, a sequence of VF_GROWS grow_by(delta) calls
-//   (delta in [0, VF_MAXD]), the element payload (seed), which whole-container operation follows
-//   (copy-construct / copy-assign / move-assign / swap / move-construct / self-copy-assign, restricted by
-//   VF_OPMASK), a further grow_by on the destination, and all probe indices.
+// Symbolic: which scenario (initialSize and the sequence of grow_by deltas) is run, the element payload
+//   (seeds), all probe indices.  Fixed per instance: minBuffSize, the whole-container operation (VF_OP:
+//   0 copy-construct, 1 copy-assign, 2 move-assign, 3 swap, 4 move-construct, 5 self-copy-assign).
 // Every element i of an arena with payload seed s is written with f(s,i) = s + 3*i + 1 right after the
 // grow_by that created it, so "contents are equal" can be stated without a ghost array:
 // for a symbolic probe index q < size, dst[q] == f(seed of the source, q).
@@ -40,17 +39,8 @@ inline void c37_alignedFree(void* p) { ::free(p); }
 #ifndef VF_ALIGN
 #define VF_ALIGN 64
 #endif
-#ifndef VF_GROWS
-#define VF_GROWS 3
-#endif
-#ifndef VF_MAXD
-#define VF_MAXD 2
-#endif
-#ifndef VF_MAXBUF
-#define VF_MAXBUF 4
-#endif
-#ifndef VF_OPMASK
-#define VF_OPMASK 0x3f
+#ifndef VF_DB
+#define VF_DB 3  // initialSize and the grow_by deltas range over 0..VF_DB-1
 #endif
 #ifndef VF_ELEM
 #define VF_ELEM 0
@@ -74,7 +64,7 @@ using Index = VF_INDEX;
 using Arena = dispenso::ConcurrentObjectArena<Elem, Index, VF_ALIGN>;
 
 // upper bound on the number of elements any arena of this run can reach
-static const uint32_t kMaxN = VF_MAXD * (VF_GROWS + 3);
+static const uint32_t kMaxN = 5 * VF_DB;
 
 static inline int32_t f(uint32_t seed, Index i) { return (int32_t)(seed + 3u * (uint32_t)i + 1u); }
 
@@ -118,8 +108,7 @@ __attribute__((always_inline)) static inline void adopt(Model& m, Arena* a, Inde
   noteProbe(m);
 }
 
-__attribute__((always_inline)) static inline void grow(Model& m) {
-  Index d = (Index)vf_range_u32(0, VF_MAXD);
+__attribute__((always_inline)) static inline void grow(Model& m, Index d) {
   Index r = m.a->grow_by(d);
   vf_check(r == m.n, "grow_by returns the previous size: ranges are contiguous, disjoint, union is [0,size())");
   vf_check(m.a->size() == (Index)(m.n + d), "size() grows by exactly delta");
@@ -147,8 +136,8 @@ __attribute__((always_inline)) static inline void checkContents(Arena& x, uint32
 }
 
 // the destination D of the operation is a fully functional arena: grow it further, re-check everything
-__attribute__((always_inline)) static inline void after(uint32_t op, Model& D, Model& A) {
-  grow(D);
+__attribute__((always_inline)) static inline void after(uint32_t op, Model& D, Model& A, Index post) {
+  grow(D, post);
   checkContents(*D.a, D.seed, D.n);
   if (op <= 1) {
     // growing / writing the copy left the original untouched
@@ -158,34 +147,28 @@ __attribute__((always_inline)) static inline void after(uint32_t op, Model& D, M
   if (op == 3) checkContents(*A.a, A.seed, A.n);
 }
 
-extern "C" void vf_main() {
+// One scenario: every size-determining parameter (minBuffSize, initialSize, the grow_by deltas) is a literal
+// at the call site, so that buffer sizes, table capacities and buffer counts are constants for the solver
+// (with symbolic deltas every heap object has a symbolic size and the array theory does not terminate in
+// hours).  The scenario itself is selected by a symbolic input in vf_main, payload and probe indices stay
+// symbolic.
+__attribute__((always_inline)) static inline void scenario(
+    const Index minA, const Index initA, const Index g1, const Index g2, const Index g3, const Index post,
+    const uint32_t op) {
   Model A, B, D;
   uint32_t seedA = vf_nondet_u32();
   uint32_t seedB = vf_nondet_u32();
   vf_assume(seedA != seedB);
-#ifdef VF_MINBUF
-  // fixed minBuffSize (buffer sizes are then constants for the solver); B uses the next power of two
-  Index minA = VF_MINBUF, minB = 2 * VF_MINBUF;
-#else
-  Index minA = (Index)vf_range_u32(1, VF_MAXBUF), minB = (Index)vf_range_u32(1, VF_MAXBUF);
-#endif
-  Index initA = (Index)vf_range_u32(0, VF_MAXD), initB = (Index)vf_range_u32(0, VF_MAXD);
+  const Index minB = 2 * minA, initB = 1;
   // arenas are ordinary locals: destroyed by the real destructor at scope exit (leak check after that)
   Arena a(minA, initA);
   adopt(A, &a, initA, seedA);
-  for (int i = 0; i < VF_GROWS; ++i) grow(A);
+  grow(A, g1);
+  grow(A, g2);
+  grow(A, g3);
   Arena b(minB, initB);
   adopt(B, &b, initB, seedB);
-#ifdef VF_GROW_B
-  grow(B);
-#endif
-
-#ifdef VF_OP
-  const uint32_t op = VF_OP;  // one operation per instance: keeps the formula small
-#else
-  uint32_t op = vf_range_u32(0, 5);
-  vf_assume((VF_OPMASK >> op) & 1);
-#endif
+  grow(B, 2);
   switch (op) {
     case 0: {  // copy construction
       Arena c(a);
@@ -197,7 +180,7 @@ extern "C" void vf_main() {
       noteProbe(D);
       if (A.probeAddr != nullptr)
         vf_check(D.probeAddr != A.probeAddr, "a copy owns its own storage");
-      after(op, D, A);
+      after(op, D, A, post);
       break;
     }
     case 1: {  // copy assignment
@@ -210,7 +193,7 @@ extern "C" void vf_main() {
       noteProbe(D);
       if (A.probeAddr != nullptr)
         vf_check(D.probeAddr != A.probeAddr, "a copy owns its own storage");
-      after(op, D, A);
+      after(op, D, A, post);
       break;
     }
     case 2: {  // move assignment: destination takes over the source's elements (source: only destructible)
@@ -219,7 +202,7 @@ extern "C" void vf_main() {
       D = A;
       D.a = &b;
       checkStable(D);
-      after(op, D, A);
+      after(op, D, A, post);
       break;
     }
     case 3: {  // swap
@@ -232,7 +215,7 @@ extern "C" void vf_main() {
       A.a = &a;
       checkStable(A);
       checkStable(D);
-      after(op, D, A);
+      after(op, D, A, post);
       break;
     }
     case 4: {  // move construction (source: only destructible)
@@ -241,7 +224,7 @@ extern "C" void vf_main() {
       D = A;
       D.a = &c;
       checkStable(D);
-      after(op, D, A);
+      after(op, D, A, post);
       break;
     }
     default: {  // self copy assignment
@@ -250,8 +233,45 @@ extern "C" void vf_main() {
       D = A;
       D.probeAddr = nullptr;
       noteProbe(D);
-      after(op, D, A);
+      after(op, D, A, post);
       break;
     }
+  }
+}
+
+#ifndef VF_MINBUF
+#define VF_MINBUF 1
+#endif
+#ifndef VF_OP
+#define VF_OP 0
+#endif
+#ifndef VF_NSC
+#define VF_NSC 27
+#endif
+// scenario k: digits of k in base VF_DB = (initialSize, delta1, delta2[, delta3]); the grow_by applied to the
+// destination afterwards cycles through 0..VF_DB-1 with k
+#define SC(k)                                                                                         \
+  case (k):                                                                                           \
+    scenario(VF_MINBUF, (k) % VF_DB, ((k) / VF_DB) % VF_DB, ((k) / (VF_DB * VF_DB)) % VF_DB,          \
+             ((k) / (VF_DB * VF_DB * VF_DB)) % VF_DB, ((k) + (k) / VF_DB + 1) % VF_DB, VF_OP);         \
+    break;
+#define SC3(k) SC(k) SC((k) + 1) SC((k) + 2)
+#define SC9(k) SC3(k) SC3((k) + 3) SC3((k) + 6)
+#define SC27(k) SC9(k) SC9((k) + 9) SC9((k) + 18)
+#define SC81(k) SC27(k) SC27((k) + 27) SC27((k) + 54)
+
+extern "C" void vf_main() {
+  uint32_t sel = vf_range_u32(0, VF_NSC - 1);
+  switch (sel) {
+#if VF_NSC <= 9
+    SC9(0)
+#elif VF_NSC <= 27
+    SC27(0)
+#elif VF_NSC <= 81
+    SC81(0)
+#else
+    SC81(0) SC81(81) SC81(162)
+#endif
+    default: break;
   }
 }
